@@ -28,7 +28,7 @@ def lockFacts : List MethodFact := [
   ⟨"Lchown", true, true, true, false, ⟨false, false, []⟩, ⟨false, true, ["realPath", "tryBackup"]⟩⟩,
   ⟨"Lstat", true, false, false, false, ⟨false, false, []⟩, ⟨false, false, []⟩⟩,
   ⟨"Map", true, true, true, false, ⟨false, false, []⟩, ⟨true, false, []⟩⟩,
-  ⟨"MarshalJSON", true, false, false, false, ⟨true, false, []⟩, ⟨false, false, []⟩⟩,
+  ⟨"MarshalJSON", true, false, false, false, ⟨false, false, ["Map"]⟩, ⟨false, false, []⟩⟩,
   ⟨"Mkdir", true, true, true, false, ⟨false, false, []⟩, ⟨false, true, ["realPath", "tryBackup"]⟩⟩,
   ⟨"MkdirAll", true, true, true, false, ⟨false, false, []⟩, ⟨false, true, ["realPath", "tryBackup"]⟩⟩,
   ⟨"Name", true, false, false, false, ⟨false, false, []⟩, ⟨false, false, []⟩⟩,
